@@ -389,3 +389,40 @@ def R6(vc):
     probe.iter_extra_fields = lambda resource: iter([('spec', 'x'), ('status', 'phase'), ('spec', 'x')])
     vc.ensure('set_of_all', ld2.fn(probe, resource=resource) == {('spec', 'x'), ('status', 'phase')})
     return ('done', len(yielded))
+
+
+# ----------------------------------------------------------------------------------------------- R10m
+@harness('R10m', targets='kopf._core.intents.registries._matches_resource', props=['C15', 'C19'],
+         clauses=['answers_for_the_resource_at_hand', 'selectorless_matches_all'], canaries=['canary.always_matches'])
+def R10m(vc):
+    """
+    _matches_resource keeps no memory between calls: asked about two Resource objects that compare (and hash)
+    equal -- same group/version/plural -- but differ in what selectors look at (categories, shortcuts, preferred
+    version: a CRD edited or re-created while the operator runs), each answer is the selector's answer for THAT
+    object.  (Resource.__eq__/__hash__ use the (group, version, plural) key only, so any memoisation keyed on the
+    resource silently freezes the first answer.)
+    """
+    from kopf._cogs.structs import references
+
+    def mk(cats, preferred):
+        return references.Resource(group='example.com', version='v1', plural='things', kind='Thing', singular='thing',
+                                   shortcuts=frozenset(), categories=frozenset(cats), subresources=frozenset(),
+                                   namespaced=True, preferred=preferred, verbs=frozenset({'list', 'watch', 'patch'}))
+    r1, r2 = mk(['mycat'], True), mk([], False)
+    vc.ensure('answers_for_the_resource_at_hand', r1 == r2 and hash(r1) == hash(r2) and r1 is not r2)   # the premise
+    b1, b2 = vc.bool('selector.check(r1)'), vc.bool('selector.check(r2)')
+    asked = []
+
+    class Sel:
+        def check(self, resource):
+            asked.append(resource)
+            return b1 if resource is r1 else b2
+    handler = Opaque('handler', selector=Sel())
+    ld = vc.load('kopf._core.intents.registries', '_matches_resource')
+    a1 = ld.fn(handler, r1)
+    a2 = ld.fn(handler, r2)
+    a3 = ld.fn(handler, r1)
+    vc.ensure('answers_for_the_resource_at_hand', And(Iff(a1, b1), Iff(a2, b2), Iff(a3, b1)))
+    vc.ensure('selectorless_matches_all', bool(ld.fn(Opaque('handler', selector=None), r2)) is True)
+    vc.canary('canary.always_matches', a2)
+    return ('done', len(asked))
